@@ -38,6 +38,8 @@ def run(ctx, out):
         "tick-exact runs use dyadic parameters (throughputs 1/4..4 ops/s, clients and totals powers of two, 1 tick = 1 s or 1/4 s) so that the implementation's float arithmetic is exact and L1/L2 are equalities; "
         "millisecond runs with non-dyadic parameters are recorded rounded to 1 ms and checked with L1 only, tolerance 3 ms",
         "the first request of a throttled task (and every request before the first successful one) is scheduled at 0 by the code and then has latency = service time: named in the model (sched = 0), not flagged; L1 requires latency-from-schedule only for requests with a scheduled time > 0",
+        "external completion (the worker-wide `complete` event, set by completed-by of another task) may arrive while a request is in flight or at an instant strictly inside the wait for the next scheduled time; "
+        "the code as it is does not look at the event while it waits: the request is issued at its scheduled time, recorded with progress 100% and ends the loop (modelled so; L1 judges that request like any other)",
         "a task's runner reports one unit throughout a run; error outcomes are elasticsearch ApiError (400), plain TransportError and ConnectionTimeout with on-error=continue; fatal ConnectionError and on-error=abort are not covered",
         "every request performs exactly one wire request that sets request_start and request_end (nested / missing request contexts are C18)",
         "'its client' of a sample = the client whose Elasticsearch client object executed the request (the id AsyncIoAdapter passes to EsClientFactory.create_async); in an over-committed parallel element that is client idx % cap",
@@ -61,7 +63,7 @@ def run(ctx, out):
         n_edge=150 if ctx.quick else 1500,
         n_elem=120 if ctx.quick else 1200,
     )
-    for key in ("requests_decided_within_1ms_before_schedule", "runs_of_wrapped_clients_on_overcommitted_element", "throttled_requests", "requests_behind_schedule", "requests_that_slept_until_schedule", "failed_requests", "weight_changes", "runs_aborted_by_unit_check", "runs_with_unit_conversion", "poisson_requests"):
+    for key in ("runs_completed_externally_during_a_throttle_wait", "requests_decided_within_1ms_before_schedule", "runs_of_wrapped_clients_on_overcommitted_element", "throttled_requests", "requests_behind_schedule", "requests_that_slept_until_schedule", "failed_requests", "weight_changes", "runs_aborted_by_unit_check", "runs_with_unit_conversion", "poisson_requests"):
         if not cov[key]:
             out.vacuous.append("no executed run exercised: " + key)
     # wire leg (harness/wireleg.py): "service time is the span between sending the request and receiving its response" on the REAL
